@@ -292,6 +292,29 @@ func c16Ctl(args []string) error {
 			WithTmpfs("w", "").WithTmpfs("tmp", "").FilterNotExist().Mounts,
 		Stderr: initErr,
 	}
+	if c.Point == "conf.init" {
+		// the controller dies while Build is still configuring the container: init is inside its handler,
+		// running the init command (a program that ignores signals, has a descendant and does not end)
+		b.InitCommand = []string{"/probe/cprobe", nonce + "p", "ignore", "tree:il()", "sleep:60000"}
+		b.Mounts = mount.NewDefaultBuilder().WithBind(filepath.Dir(probe), "probe", true).WithBind("/dev/null", "dev/null", false).
+			WithTmpfs("w", "").WithTmpfs("tmp", "").FilterNotExist().Mounts
+		go b.Build()
+		for k := 0; k < 1000; k++ {
+			time.Sleep(10 * time.Millisecond)
+			initPid := 0
+			for _, p := range childrenOf(os.Getpid()) {
+				if !before[p] {
+					initPid = p
+				}
+			}
+			if initPid != 0 && len(scanNonce(nonce+"p")) >= 2 {
+				fmt.Printf("READY %d\n", initPid)
+				os.Stdout.Sync()
+				select {} // wait for the SIGKILL
+			}
+		}
+		return fmt.Errorf("init command did not come up")
+	}
 	env, err := b.Build()
 	for try := 0; err != nil && try < 3; try++ { // Build's ping has a 3 s deadline: retry on a loaded machine
 		time.Sleep(time.Second)
